@@ -665,6 +665,13 @@ fn script_cases() -> Vec<ScriptCase> {
             add(&format!("x=0; {line}; args \"$x\""), &[if persists { "args[1]" } else { "args[0]" }]);
         }
     }
+    // declarations whose value contains an equal sign: the operand is split at the *first* one
+    // (typeset.md), so the local, the export and the read-only mark are the named variable's
+    add("f() { typeset v=k=1; args \"$v\"; v=changed; args \"$v\"; }; v=g; f; args \"$v\"", &["args[k=1]", "args[changed]", "args[g]"]);
+    add("export E=a=b=c; args \"$E\"; envp E", &["args[a=b=c]", "exec[E=a=b=c]"]);
+    add("f() { typeset -x L==; envp L; }; f; envp L", &["exec[L==]", "exec[]"]);
+    add("readonly R=a=b; args \"$R\"; (R=x) 2>/dev/null; args \"$R\"", &["args[a=b]", "args[a=b]"]);
+    add("typeset T=; args \"${T-unset}\"; typeset U; args \"${U-unset}\"", &["args[]", "args[unset]"]);
     // ... but not when run via `command`
     add("x=0; x=1 command :; args \"$x\"", &["args[0]"]);
     add("x=0; x=1 command eval 'args $x'; args \"$x\"", &["args[1]", "args[0]"]);
